@@ -3,7 +3,8 @@ From Coq Require Import List ZArith Bool Permutation.
 From DD Require Import Model.Circuit Proofs.PassLemmas Proofs.Enum Proofs.Semantics Proofs.DetCert.
 From DD Require Import Model.LexerD4 Model.LoadD4 Spec.D4Sem Proofs.LoadD4Graph Proofs.LoadD4Ops
   Proofs.LoadD4Pass2 Proofs.LoadD4Struct Proofs.LoadD4Pass3 Proofs.LoadD4Sem Proofs.LoadD4Count
-  Proofs.LoadD4Examples Spec.D4Conform Proofs.LoadD4WFTop.
+  Proofs.LoadD4Examples Spec.D4Conform Proofs.LoadD4WFTop Proofs.CountsA Proofs.QueryDefs Proofs.EndToEndD4.
+From DD Require Import Model.Query.
 Import ListNotations.
 
 (* The cached root count of every well-formed flattened circuit is the number of rows of the
@@ -107,6 +108,29 @@ Theorem C01_d4_loader_wf_count : forall toks n C n',
   WF C n' /\ root_count C = Z.of_nat (length (d4_models toks n')).
 Proof. exact load_d4_wf_count. Qed.
 Print Assumptions C01_d4_loader_wf_count.
+
+(* END TO END: every theorem about the query algorithms (C02-C08, C10, C19, C20) takes WFQ of the
+   node vector as hypothesis; for a conforming d4 FILE that hypothesis is now a theorem, and the
+   answers are about the function the FILE denotes: *)
+Theorem C01_d4_loader_wfq : forall toks n C n',
+  d4_conform toks n = true -> load_d4 toks n = Some (C, n') -> WFQ C n'.
+Proof. exact load_d4_wfq. Qed.
+Print Assumptions C01_d4_loader_wfq.
+
+(* ... a count under assumptions A (any length, any strategy, any Clean scratch state) is the number
+   of satisfying assignments of the FILE over 1..n' that contain A *)
+Theorem C01_d4_file_count : forall toks n C n' A s,
+  d4_conform toks n = true -> load_d4 toks n = Some (C, n') -> in_range n' A -> Clean C s ->
+  snd (execute_query (build C n') A s) = Z.of_nat (length (d4_modelsA toks n' A)).
+Proof. exact d4_file_count. Qed.
+Print Assumptions C01_d4_file_count.
+
+(* ... and SAT says whether such an assignment exists (for a satisfiable file) *)
+Theorem C01_d4_file_sat : forall toks n C n' A,
+  d4_conform toks n = true -> load_d4 toks n = Some (C, n') -> d4_models toks n' <> [] -> in_range n' A ->
+  sat (build C n') A = negb (match d4_modelsA toks n' A with [] => true | _ => false end).
+Proof. exact d4_file_sat. Qed.
+Print Assumptions C01_d4_file_sat.
 
 (* the same for the loader before the C18 repair (any duplicate-free enumeration order of the
    hash set) and with or without node-index recycling *)
